@@ -80,10 +80,10 @@ def main(args):
                "error without cause / error whose cause IS the raised exception / the exception escapes unchanged) is exported "
                "and replayed through validation in 4 drafts and through conforms(). Non-trivial: a checker is present and knows "
                "the name; distinct by (configuration, name, instance)." % (2 if quick else 3))
-    r = tlc.run("mc/MC_C12.tla", cfg="mc/MC_C12_%s.cfg" % args.tier, workers=16, timeout=3000)
+    r = tlc.run("mc/MC_C12.tla", cfg="mc/MC_C12_%s.cfg" % args.tier, workers=16, timeout=3000, coverage=True)
     if r.violation:
         raise tlc.MachineryFailure("format protocol model violated: " + r.violation)
-    ck.add_tlc(r)
+    ck.add_tlc(r, "MC_C12")
     for ex in r.exports:
         x = ex["x"]
         inst = dec_str(x["s"]) if x["k"] == "str" else INST[x["k"]]
